@@ -37,12 +37,20 @@ def run(ctx):
     from . import febounds
     ctx.guard("fe-bounds", "fe64", lambda: febounds.check_fe64(ctx, P, "K0"))
     ctx.guard("fe-bounds", "fe32", lambda: febounds.check_fe32(ctx, P2, "K2"))
+    from . import sc32
+    ctx.guard("decode", "fe64::from_bytes", lambda: C12.check_from_bytes64(ctx, P))
+    ctx.guard("decode32", "fe32::from_bytes", lambda: sc32.check_decode32(ctx, P2))
+    ctx.guard("sc", "scalar32::reduce", lambda: sc32.check_scalar32(ctx, P2, "reduce"))
+    ctx.guard("sc", "scalar32::muladd", lambda: sc32.check_scalar32(ctx, P2, "muladd"))
     ctx.guard("exponent", "fe64", lambda: C12.check_exponents(ctx, P, "K0", "fe64"))
     ctx.guard("exponent", "fe32", lambda: C12.check_exponents(ctx, P2, "K2", "fe32"))
     ctx.guard("canonical", "fe64", lambda: C15.check_canonical(ctx, P, "fe64"))
     ctx.guard("canonical", "fe32", lambda: C15.check_canonical(ctx, P2, "fe32"))
     ctx.guard("canonical", "scalar64", lambda: C15.check_scalar64(ctx, P))
     ctx.guard("canonical", "scalar32", lambda: C14.check_s32(ctx, P2))
+    ctx.guard("canonical", "scalar32-order", lambda: C14.check_s32_order(ctx, P2))
+    ctx.guard("bits-all", "scalar64", lambda: C14.check_bits_all(ctx, P, "scalar64"))
+    ctx.guard("bits-all", "scalar32", lambda: C14.check_bits_all(ctx, P2, "scalar32"))
     for tag, prog in (("K0", P), ("K2", P2)):
         ctx.guard("ladder", "curve25519/" + tag, lambda: C12.ladder(ctx, prog, "curve25519::curve25519", False))
         ctx.guard("ladder", "curve25519_base/" + tag, lambda: C12.ladder(ctx, prog, "curve25519::curve25519_base", True))
@@ -50,4 +58,4 @@ def run(ctx):
         ctx.guard("select", "ge/" + tag, lambda: C15.check_select(ctx, prog, "fe64" if tag == "K0" else "fe32"))
         ctx.guard("verify", "ed25519::verify/" + tag, lambda: C14.check_verify(ctx, prog))
     ctx.trusted += ["definition-derived oracle cxsa/spec/curve.py", "ssa evaluator, limb-polynomial normal form"]
-    ctx.not_decided += ["limb bounds at the call sites of the group code for fe32 (per-operation contracts are decided by fe-bounds)", "fe32 from_bytes / to_bytes as bit maps (carry-based)", "scalar32 reduction arithmetic"]
+    ctx.not_decided += ["limb bounds at the call sites of the group code for fe32 (per-operation contracts are decided by fe-bounds)", "fe32 to_bytes as a bit map (carry-based); scalar64 Barrett arithmetic as numbers"]
